@@ -10,9 +10,12 @@ from .c08 import admissible
 ID = 'C16'
 LEVEL = 'exploration'
 ASSUMPTIONS = [
-    'side conditions checked lexically: no NUL/DEL; \\def excluded, \\textbf/\\section/\\label only with a brace group; '
+    'side conditions checked lexically (as in C08): no NUL/DEL; \\def/\\textbf/\\section/\\label only with brace groups; '
     'a sizing prefix (\\left \\right \\big \\Big \\bigg \\Bigg) is immediately followed by one of the 22 LaTeX delimiters',
-    'shape = canonical tree (names, argument kinds/order/contents, contents) with adjacent text coalesced, positions dropped',
+    'fresh-character strings: every string gets a non-ASCII letter that no earlier string of the run contained, so that '
+    'anything the library remembers about a character at first sight is exercised on the first and the second parse',
+    'shape = canonical tree (names, argument kinds/order/contents, contents) with adjacent text coalesced, positions '
+    'dropped; then repr(expr) of both parses (the split of text into runs included)',
 ]
 DELIMS = ['(', ')', '<', '>', '[', ']', '{', '}', '\\{', '\\}', '.', '|', '\\langle', '\\rangle', '\\lfloor', '\\rfloor',
           '\\lceil', '\\rceil', '\\ulcorner', '\\urcorner', '\\lbrack', '\\rbrack']
@@ -49,6 +52,11 @@ def check_string(acc, src, origin):
     if c1 != c2:
         acc.violation('shape-changes', case, c1, c2, size=len(src))
         return
+    r1, r2 = repr(s1.expr), repr(s2.expr)
+    if r1 != r2:
+        # the observable the property names: also the split of text into runs must be the same
+        acc.violation('repr-changes', case, r1, r2, size=len(src))
+        return
     s3, exc = egram.parse(t2)
     if exc is not None or str(s3) != t2 or canon(s3) != c2:
         acc.violation('third-pass', case, t2, egram.exc_repr(exc) if exc else str(s3), size=len(src))
@@ -60,6 +68,7 @@ def check_string(acc, src, origin):
 
 def shards(tier):
     out = [{'kind': 'mixed'}]
+    out += [{'kind': 'fresh', 'i': i, 'k': 8} for i in range(8)]
     out += [dict(s, kind='sigma') for s in strings.shards('quick' if tier == 'quick' else 'thorough')]
     plan = 'small-quick' if tier == 'quick' else 'small-thorough'
     out += [dict(s, kind='ws', tier=tier) for s in layers.shards(plan, ('args',))]
@@ -87,6 +96,10 @@ def run_shard(shard):
     if shard['kind'] == 'mixed':
         for s in layers.mixed_arg_strings():
             check_string(acc, s, 'mixed-order arguments')
+    elif shard['kind'] == 'fresh':
+        for j, s in enumerate(strings.fresh_char_strings()):
+            if j % shard['k'] == shard['i']:
+                check_string(acc, s, 'fresh-character')
     elif shard['kind'] == 'sigma':
         for s in strings.iter_strings(shard):
             check_string(acc, s, 'sigma-' + shard['alpha'])
